@@ -270,6 +270,14 @@ def observe(c: Case, mode, SUB):
 
     env = vt.Env(budget=5000)
     rec = env.recorder("out")
+
+    def cap(value, count):
+        # a producer that never stops while running synchronously (no virtual scheduler in the loop to count
+        # actions) must not hang the harness: BaseException, so that the library cannot swallow it
+        if count > 500:
+            raise vt.BudgetExceeded()
+
+    rec.on_next_hook = cap
     sched_for_factory = env.sched if mode == "fac" else None
     env.subscribe_at(SUB, lambda: c.build(rx, ops, sched_for_factory), rec, pass_scheduler=(mode == "sub"))
     status = env.run()
